@@ -1144,8 +1144,11 @@ impl Relation {
         builder.start_node(SyntaxKind::RELATION.into());
         builder.token(IDENT.into(), self.name().as_str());
         if let Some(archqual) = self.archqual() {
+            // the same node the parser builds, so that archqual() finds it again
+            builder.start_node(SyntaxKind::ARCHQUAL.into());
             builder.token(COLON.into(), ":");
             builder.token(IDENT.into(), archqual.as_str());
+            builder.finish_node();
         }
         if let Some((vc, version)) = self.version() {
             builder.token(WHITESPACE.into(), " ");
